@@ -122,7 +122,23 @@ def run_history_observed(bt, spec, rng, nops, observers, ctx=None, key_prefix=""
     return steps, root, dates
 
 
-def model_compare(ctx, bt, batch, footprint_fields=None, footprint_ops=None, corr_name="step"):
+def truncate_data(world, t):
+    """copy of a snapshot with every supplied data column of every security cut after row t (what `World.trunc t` does)"""
+    import copy as _copy
+    w = _copy.deepcopy(world)
+
+    def rec(n):
+        if n["t"] == "S":
+            for k in ("prices", "bidoffers", "coupons", "costLong", "costShort"):
+                if n.get(k) is not None:
+                    n[k] = n[k][:t + 1]
+        for c in n.get("kids", []):
+            rec(c)
+    rec(w["root"])
+    return w
+
+
+def model_compare(ctx, bt, batch, footprint_fields=None, footprint_ops=None, corr_name="step", trunc=False):
     """batch: list of (spec, step_index, step).  Sends the steps to the Lean driver and records disagreements
     inside the footprint.  Returns (n_compared, n_disagree)."""
     cfg = E.live_cfg(bt)
@@ -140,7 +156,18 @@ def model_compare(ctx, bt, batch, footprint_fields=None, footprint_ops=None, cor
         if st["pre"]["root"]["comm"] is None:
             ctx.count("skipped:unknown-commission-fn")
             continue
-        lines.append(E.step_line(cfg, st["pre"], st["op"]))
+        pre, op = st["pre"], st["op"]
+        if trunc:
+            # no look-ahead: the model sees the supplied data only up to the clock of the step
+            t = op["d"] if op["op"] in ("update", "btday") else pre["root"]["now"]
+            if t is None:
+                continue
+            pre = truncate_data(pre, t)
+            if op["op"] == "btday" and op.get("w2") is not None:
+                op = dict(op)
+                op["w2"] = truncate_data(op["w2"], t)
+            ctx.count("truncated-steps")
+        lines.append(E.step_line(cfg, pre, op))
         meta.append((spec, i, st))
     outs = leanrun.run_lines(lines)
     nd = 0
